@@ -257,14 +257,15 @@ def run_check(pid, tier, seed):
 
     # ------------------------------------------------------------------ Kani units
     kani_rows = []
+    kani_undecided = None
     if plan.get("kani"):
         import kaniunits
         kr = kaniunits.run(pid, plan["kani"], tier, seed)
         kani_rows = kr["rows"]
         coverage["bounded_parts"] = kr["rows"]
         trusted += kr.get("trusted", [])
-        if kr.get("undecided"):
-            return finish_undecided_or_replay(pid, tier, seed, t0, "kani: " + kr["undecided"], plan)
+        if kr.get("undecided") and not any(not row["ok"] for row in kr["rows"]):
+            kani_undecided = "kani: " + kr["undecided"]
         for row in kr["rows"]:
             units.append(("kani:" + row["harness"], row["ok"]))
             if not row["ok"]:
@@ -324,6 +325,31 @@ def run_check(pid, tier, seed):
     if plan.get("verus", True):
         shifted_info = mp.get("anchor_shifted", [])
         shifted = set(a["fn"] for a in shifted_info)
+    # functions that now call something they did not call on the reviewed tree (a new closure, a std combinator, a new
+    # helper): the verifier has no contract for the newcomer, so a failed clause there may be nothing but a missing
+    # specification - tentative, like a structural change
+    new_callees = {}
+    if plan.get("verus", True) and any(f.get("source") == "verus" for f in failures_mine):
+        try:
+            import frames
+            fcts, _ = frames.facts(bdir)
+            base_cs = json.load(open(os.path.join(VERIF, "contracts", "callsets.json")))
+            for ff in mp["functions"]:
+                k = "%s:%s" % (ff["file"], ff["fn"])
+                if fcts is None or k not in base_cs:
+                    continue
+                cur = set(fcts["calls"].get(k, [])) | set("!" + m for m in fcts["macros"].get(k, []))
+                extra = sorted(cur - set(base_cs[k]))
+                if extra:
+                    new_callees[ff["fn"]] = extra
+        except Exception:
+            new_callees = {}
+        if new_callees:
+            coverage["new_callees"] = new_callees
+            for fn_, extra in new_callees.items():
+                if fn_ not in shifted:
+                    shifted.add(fn_)
+                    shifted_info.append({"fn": fn_, "what": "calls %s, which the reviewed tree did not call there" % ", ".join(extra[:4])})
     tentative = [f for f in failures_mine if (f.get("fn") in shifted or f.get("soft")) and not f.get("found_history")]
     failures_mine = [f for f in failures_mine if f not in tentative]
     tentative_undecided = None
@@ -425,8 +451,8 @@ def run_check(pid, tier, seed):
         rc = 1
     for l in kf_lines:
         print(l)
-    if rc == 0 and (tentative_undecided or collateral_undecided or affected_undecided):
-        return undecided(pid, tier, seed, t0, tentative_undecided or collateral_undecided or affected_undecided)
+    if rc == 0 and (tentative_undecided or collateral_undecided or affected_undecided or kani_undecided):
+        return undecided(pid, tier, seed, t0, tentative_undecided or collateral_undecided or affected_undecided or kani_undecided)
 
     level = plan.get("level", "proof")
     # bounded units (Kani harnesses with a bound, replay stand-ins) and syntactic frames decide together with the proof, but
